@@ -22,7 +22,7 @@ BOUNDS = {
     "shapes": "nested record, list of <= 2 carriers, grouped records with 0..2 members each",
     "hash after assignment": "plain / grouped (member handed in, member through .records) / nested record: hash, assign, compare with a rebuilt twin",
     "scopes": "outer configuration = every subset of 3 names, inner = every subset, body raising or not, one level of nesting",
-    "types": "20 field types with representative values (contents beyond the table: outside)",
+    "types": "26 field types / values with representative values (incl. NaN: reflexivity and hash stability) (contents beyond the table: outside)",
 }
 STUBS = ["carrier values are injected through the documented pass-through type 'record'"]
 OUTSIDE = ["collisions of Python's hash", "NaN fields (a rebuilt copy is unequal by Python's ==, reflexivity holds through identity)"]
@@ -303,6 +303,7 @@ TYPE_TABLE = [
     ("datetime", _dt.datetime(2020, 1, 1, tzinfo=_dt.timezone.utc), _dt.datetime(2020, 1, 2, tzinfo=_dt.timezone.utc)), ("path", "/a/b", "/a/c"), ("command", "ls -l /tmp", "ls -a /tmp"),
     ("net.ipaddress", "1.2.3.4", "::1"), ("net.ipnetwork", "10.0.0.0/8", "10.0.0.0/9"), ("digest", ("d41d8cd98f00b204e9800998ecf8427e", None, None), (None, None, None)), ("uri", "http://a/b", "http://a/c"),
     ("string[]", ["a", "b"], ["b", "a"]), ("varint[]", [1, 2**65], [1]), ("path[]", ["/a"], ["/b"]), ("net.ipaddress[]", ["1.1.1.1"], ["1.1.1.2"]), ("stringlist", ["x"], ["y"]),
+    ("float", float("nan"), 1.0), ("float[]", [1.0, float("nan")], [1.0]),
     ("dictlist", [{"a": 1, "b": {"c": [1, 2]}}], [{"a": 1, "b": {"c": [2, 1]}}]), ("filesize", 10, 11), ("unix_file_mode", 0o644, 0o600), ("command[]", ["ls -l", "cat x"], ["ls -l"]), ("dynamic", "text", 5),
 ]
 
@@ -321,6 +322,17 @@ def type_case(i, variation):
     b = D(copy_val, "k", _generated=GEN)
     c = D(v2, "k", _generated=GEN)
     try:
+        # reflexivity and hash stability hold for EVERY record (NaN included: there a rebuilt copy is legitimately unequal, the
+        # record itself is not): plain, as a member of a group and nested
+        ga = GroupedRecord("g", [a])
+        ha = RecordDescriptor("t/holder", [("record", "r"), ("record[]", "rs")])(a, [a], _generated=GEN)
+        for what, x in (("record", a), ("grouped record", ga), ("record holding it", ha)):
+            if not (x == x) or (x != x):
+                return f"{t} = {v1!r}: a {what} is not equal to itself"
+            if hash(x) != hash(x) or x not in {x}:
+                return f"{t} = {v1!r}: the hash of a {what} changes from call to call / it is not found in a set holding it"
+        if any(isinstance(x, float) and x != x for x in (v1 if isinstance(v1, list) else [v1])):
+            return None  # NaN: the remaining clauses compare rebuilt copies, which Python's == makes unequal by definition
         if variation == 0:
             if not (a == b and b == a and not (a != b)):
                 return f"{t}: a record and its independently rebuilt copy are not equal"
